@@ -1,22 +1,78 @@
 """Driver for a history-free call in a FRESH PROCESS (C11): module-level state of the package - memos, caches, the
-decimal context, the builtin table - starts from scratch here.   stdin: pickle {sandbox, entry, src, template, budget, k} -> stdout: pickle(outcome)"""
+decimal context, the builtin table - starts from scratch here.
+
+one-shot:  stdin: pickle {sandbox, entry, src, template, budget, k} -> stdout: pickle(outcome)
+--serve:   a zygote that has imported the interpreter-level prerequisites (stdlib, regex, the harness modules) but NOT the package under test;
+           for every request (4-byte length + pickle on stdin) it forks a child, and only the child imports the package, builds a parser, serves
+           that single call and exits.  The zygote itself never evaluates anything, so every child starts from the state a new process has
+           (fresh package modules, pristine decimal context and flags, empty regex cache); forking saves the interpreter start-up and
+           harness imports per call.  Replies: 4-byte length + pickle(outcome), length 0 = the child failed.
+"""
 import os
 import pickle
+import struct
 import sys
 
 sys.path.insert(0, os.path.dirname(os.path.dirname(os.path.abspath(__file__))))
 
 
-def main():
-    req = pickle.loads(sys.stdin.buffer.read())
+def serve_one(req):
     from lib import sandbox
     sandbox.activate(req['sandbox'])
     from smartquery import SqParser
     from checks import c11
     names = c11.fresh_names(req['template']) if req['entry'] == 'eval' else None
-    out = c11.do_call(SqParser(), req['entry'], req['src'], names, req['budget'], req['k'])
-    sys.stdout.buffer.write(pickle.dumps(out))
+    return c11.do_call(SqParser(), req['entry'], req['src'], names, req['budget'], req['k'])
+
+
+def main():
+    req = pickle.loads(sys.stdin.buffer.read())
+    sys.stdout.buffer.write(pickle.dumps(serve_one(req)))
+
+
+def read_exact(f, n):
+    buf = b''
+    while len(buf) < n:
+        chunk = f.read(n - len(buf))
+        if not chunk:
+            return None
+        buf += chunk
+    return buf
+
+
+def serve():
+    import signal
+    import regex        # noqa  (prerequisite of the package, holds no state before its first use)
+    import decimal      # noqa
+    from checks import c11   # noqa  (harness side only: must not import the package)
+    assert not [m for m in sys.modules if m == 'smartquery' or m.startswith('smartquery.')], 'zygote imported the package'
+    inp, out = sys.stdin.buffer, sys.stdout.buffer
+    while True:
+        head = read_exact(inp, 4)
+        if head is None:
+            return
+        req = pickle.loads(read_exact(inp, struct.unpack('>I', head)[0]))
+        r, w = os.pipe()
+        pid = os.fork()
+        if pid == 0:
+            try:
+                os.close(r)
+                signal.alarm(60)
+                data = pickle.dumps(serve_one(req))
+                with os.fdopen(w, 'wb') as f:
+                    f.write(data)
+            finally:
+                os._exit(0)
+        os.close(w)
+        with os.fdopen(r, 'rb') as f:
+            data = f.read()
+        os.waitpid(pid, 0)
+        out.write(struct.pack('>I', len(data)) + data)
+        out.flush()
 
 
 if __name__ == '__main__':
-    main()
+    if '--serve' in sys.argv:
+        serve()
+    else:
+        main()
